@@ -535,6 +535,21 @@ def execute(ctx: RunCtx) -> None:
             if e > 1e-8 * max(1.0, abs(cfg["h0"])):
                 raise Violation("C14/O2-seed-energy-level", f"{what}: lifted seed {sd.tolist()} has |H_cm - h0| = {e:.3e} (root solve tolerance is 1e-12)")
             ctx.probe("seeds_energy_checked")
+    # O7 chain: from a worker's second backend call on, every seed is a point the same worker's previous call returned (the
+    # predecessor of a map point is the previous map point, not something re-derived from it); the tolerance is the calibrated
+    # integration-accuracy bound of O3, so a re-projection at that accuracy would pass; the other root of the energy equation is O(0.1) away
+    last_out: dict = {}
+    for (w, _, seeds, flags, states, times) in records:
+        prev = last_out.get(w)
+        if prev is not None:
+            keep = [c for c in range(4) if c != col]
+            for sd in seeds:
+                d = float(np.min(np.max(np.abs(prev[:, keep] - sd[keep]), axis=1))) if len(prev) else float("inf")
+                if not d <= return_bound(cfg, float(np.max(np.abs(sd)))):
+                    raise Violation("C14/O7-feedback-chain", f"{what}: worker {w} iterates from {sd.tolist()}, which is none of the points its previous "
+                                                             f"iteration returned (nearest differs by {d:.3e}): the next point is not a return of its predecessor")
+                ctx.probe("feedback_chain_checked")
+        last_out[w] = states
     n_dropped = sum(int(len(r[3]) - np.count_nonzero(r[3])) for r in records)
     if n_dropped:
         ctx.probe("seed_dropped", n_dropped)
